@@ -8,8 +8,8 @@ template-rule choice by (priority, document order), match patterns by the §5.2 
 sequence followed by `normalize` (the §7.1.3 rule for attributes, text-node merging).
 
 Everything is a total function with a *depth* fuel (`none` = fuel exhausted or construct outside
-the subset).  Numbers are restricted to integers and NaN (the generator never produces `div`,
-decimal points or exponents), so no floating point is needed.
+the subset).  Numbers are NaN and dyadic rationals (the generator writes `div` only with a power-of-two divisor;
+no other source of non-dyadic values), so no floating point is needed.
 Core Lean only.
 -/
 namespace XalanModel.C01
@@ -24,7 +24,32 @@ structure SNode where
   name : String := ""
   value : String := ""
   parent : Nat := 0
+  uri : String := ""              -- namespace URI of an element / attribute (its `name` is the QName as written in the source)
 deriving Repr, Inhabited
+
+/-- local part / prefix of a QName -/
+def localOf (q : String) : String :=
+  match q.splitOn ":" with
+  | [_, l] => l
+  | _ => q
+
+def prefixOf (q : String) : String :=
+  match q.splitOn ":" with
+  | [p, _] => p
+  | _ => ""
+
+/-- the namespace declarations in scope on every stylesheet element of the subset (the generator declares exactly
+these on xsl:stylesheet) -/
+def stylesheetNs : List (String × String) := [("p", "urn:p")]
+
+/-- an expanded name, written `{uri}local` (just `local` in no namespace) — the form result events carry -/
+def expanded (uri loc : String) : String := if uri.isEmpty then loc else "{" ++ uri ++ "}" ++ loc
+
+/-- expanded name of a QName written in the stylesheet (an unprefixed name is in no namespace) -/
+def sheetName (q : String) : String :=
+  match stylesheetNs.lookup (prefixOf q) with
+  | some u => expanded u (localOf q)
+  | none => q
 
 structure Doc where
   nodes : Array SNode
@@ -86,8 +111,38 @@ inductive Expr
   | filt (base : Expr) (pred : Expr)
 deriving Inhabited
 
-inductive Num | nan | int (i : Int)
+/-- XPath numbers of the subset: NaN and the dyadic rationals `n / 2^k` (normalised: `k = 0` or `n` odd).  They are
+exactly representable doubles as long as `|n| < 2^53`, and closed under `+ - * mod` and `div` by a power of two — the
+only divisors the generator writes — so no rounding ever happens and no floating point is needed. -/
+inductive Num | nan | dy (n : Int) (k : Nat)
 deriving DecidableEq, Repr, Inhabited
+
+/-- normal form -/
+def Num.norm : Nat → Int → Nat → Num
+  | 0, n, k => .dy n k
+  | f+1, n, k => if k = 0 then .dy n 0 else if n % 2 = 0 then Num.norm f (n / 2) (k - 1) else .dy n k
+
+def Num.mk (n : Int) (k : Nat) : Num := Num.norm (k + 1) n k
+
+@[match_pattern] def Num.int (i : Int) : Num := .dy i 0
+
+/-- both numerators over the common denominator `2^(max ka kb)` -/
+def Num.align (a : Int) (ka : Nat) (b : Int) (kb : Nat) : Int × Int × Nat :=
+  let k := max ka kb
+  (a * 2 ^ (k - ka), b * 2 ^ (k - kb), k)
+
+def Num.floor : Num → Num
+  | .nan => .nan
+  | .dy n k => .dy (n / 2 ^ k) 0          -- Int `/` rounds towards minus infinity for a positive divisor
+
+def Num.ceiling : Num → Num
+  | .nan => .nan
+  | .dy n k => .dy (-((-n) / 2 ^ k)) 0
+
+/-- XPath §4.4 round: the closest integer, ties towards positive infinity -/
+def Num.round : Num → Num
+  | .nan => .nan
+  | .dy n k => if k = 0 then .dy n 0 else .dy ((2 * n + 2 ^ k) / 2 ^ (k + 1)) 0
 
 /-- result-tree events -/
 inductive REv
@@ -132,20 +187,42 @@ def digitsToNat (cs : List Char) : Option Nat :=
   cs.foldl (fun acc c => acc.bind fun a =>
     if '0' ≤ c ∧ c ≤ '9' then some (a * 10 + (c.toNat - '0'.toNat)) else none) (some 0)
 
-/-- `number(string)` restricted to the integer lexical forms (anything else, including forms with
-a decimal point, which the generator never produces, is NaN) -/
-def strToNum (s : String) : Num :=
-  match trimWs s.toList with
-  | '-' :: rest => match digitsToNat rest with
-    | some n => .int (-(n : Int))
-    | none => .nan
-  | cs => match digitsToNat cs with
-    | some n => .int n
-    | none => .nan
+def pow5 (m : Nat) : Nat := 5 ^ m
 
+/-- `number(string)`: optional whitespace, optional `-`, `Digits ('.' Digits?)? | '.' Digits` (XPath §4.4).  A decimal
+that is not a dyadic rational (e.g. "0.1") is outside the subset's number domain and yields NaN here; such strings
+only arise by cutting digits out of a printed number, which the generator does not aim at. -/
+def strToNum (s : String) : Num :=
+  let cs := trimWs s.toList
+  let (neg, body) := match cs with
+    | '-' :: rest => (true, rest)
+    | _ => (false, cs)
+  let ip := body.takeWhile (· ≠ '.')
+  let rest := body.dropWhile (· ≠ '.')
+  let fp := match rest with | _ :: r => r | [] => []
+  if ip.isEmpty ∧ fp.isEmpty then .nan else
+  if rest.length > 0 ∧ ip.isEmpty ∧ fp.isEmpty then .nan else
+  match (if ip.isEmpty then some 0 else digitsToNat ip), (if fp.isEmpty then some 0 else digitsToNat fp) with
+  | some i, some f =>
+    let m := fp.length
+    -- value = (i * 10^m + f) / 10^m = num / (2^m * 5^m)
+    let num := i * 10 ^ m + f
+    if num % pow5 m = 0 then
+      let n : Int := (num / pow5 m : Nat)
+      Num.mk (if neg then -n else n) m
+    else .nan
+  | _, _ => .nan
+
+/-- number → string (XPath §4.2): no exponent, no trailing zeros, "0" for zero, exact digits of `n / 2^k` -/
 def numToStr : Num → String
   | .nan => "NaN"
-  | .int i => toString i
+  | .dy n k =>
+    if k = 0 then toString n else
+    let a := n.natAbs
+    let ip := a / 2 ^ k
+    let fr := (a % 2 ^ k) * 5 ^ k            -- fraction * 10^k
+    let ds := toString fr
+    (if n < 0 then "-" else "") ++ toString ip ++ "." ++ String.ofList (List.replicate (k - ds.length) '0') ++ ds
 
 def rtfString (evs : List REv) : String :=
   String.join (evs.map fun e => match e with | .text s => s | _ => "")
@@ -165,14 +242,15 @@ def toNum (d : Doc) : Val → Num
 def toBool : Val → Bool
   | .ns l => !l.isEmpty
   | .str s => !s.isEmpty
-  | .num n => match n with | .nan => false | .int i => i ≠ 0
+  | .num n => match n with | .nan => false | .dy i _ => i ≠ 0
   | .bool b => b
   | .rtf _ => true
 
 /-! ### comparisons (XPath §3.4) -/
 
 def numCmp (op : String) : Num → Num → Bool
-  | .int a, .int b =>
+  | .dy a0 ka, .dy b0 kb =>
+    let (a, b, _) := Num.align a0 ka b0 kb
     if op = "=" then a = b else if op = "!=" then a ≠ b else if op = "<" then a < b
     else if op = "<=" then a ≤ b else if op = ">" then a > b else if op = ">=" then a ≥ b else false
   | _, _ => op = "!="
@@ -219,10 +297,22 @@ def compareVals (d : Doc) (op : String) (a b : Val) : Bool :=
       | _, _ => if op = "=" then toStr d a = toStr d b else toStr d a ≠ toStr d b
     else numCmp op (toNum d a) (toNum d b)
 
+def isPow2 : Nat → Nat → Option Nat
+  | 0, _ => none
+  | f+1, m => if m = 1 then some 0 else if m % 2 = 0 then (isPow2 f (m / 2)).map (· + 1) else none
+
 def arith (op : String) : Num → Num → Num
-  | .int a, .int b =>
-    if op = "+" then .int (a + b) else if op = "-" then .int (a - b) else if op = "*" then .int (a * b)
-    else if op = "mod" then (if b = 0 then .nan else .int (a.tmod b)) else .nan
+  | .dy a0 ka, .dy b0 kb =>
+    let (a, b, k) := Num.align a0 ka b0 kb
+    if op = "+" then Num.mk (a + b) k else if op = "-" then Num.mk (a - b) k
+    else if op = "*" then Num.mk (a0 * b0) (ka + kb)
+    else if op = "mod" then (if b = 0 then .nan else Num.mk (a.tmod b) k)
+    else if op = "div" then
+      -- only division by ± a power of two stays in the domain (the only kind the generator writes)
+      (match isPow2 (b0.natAbs + 1) b0.natAbs with
+       | some j => Num.mk (if b0 < 0 then -(a0 * 2 ^ kb) else a0 * 2 ^ kb) (ka + j)
+       | none => .nan)
+    else .nan
   | _, _ => .nan
 
 /-! ### axes and node tests (XPath §2.2, §2.3) -/
@@ -250,7 +340,9 @@ def testNode (d : Doc) (ax : Axis) (t : NodeTest) (i : Nat) : Bool :=
   let n := d.node i
   let principal : NKind := if ax = .attribute then .attr else .elem
   match t with
-  | .name nm => n.kind = principal ∧ n.name = nm
+  | .name nm =>
+    -- §2.3: the QName is expanded with the stylesheet's declarations; no default namespace for unprefixed names
+    n.kind = principal ∧ localOf n.name = localOf nm ∧ n.uri = (stylesheetNs.lookup (prefixOf nm)).getD ""
   | .star => n.kind = principal
   | .text => n.kind = .text
   | .node => true
@@ -310,12 +402,15 @@ def translateStr (s from_ to : String) : String :=
 def substringNum (s : String) (start : Num) (len : Option Num) : String :=
   match start with
   | .nan => ""
-  | .int st =>
+  | .dy st0 k0 =>
+    let st := match Num.round (.dy st0 k0) with | .dy i _ => i | .nan => 0
     let cs := s.toList.zipIdx 1
     match len with
     | none => String.ofList ((cs.filter fun p => st ≤ (p.2 : Int)).map (·.1))
     | some .nan => ""
-    | some (.int l) => String.ofList ((cs.filter fun p => st ≤ (p.2 : Int) ∧ (p.2 : Int) < st + l).map (·.1))
+    | some (.dy l0 kl) =>
+      let l := match Num.round (.dy l0 kl) with | .dy i _ => i | .nan => 0
+      String.ofList ((cs.filter fun p => st ≤ (p.2 : Int) ∧ (p.2 : Int) < st + l).map (·.1))
 
 /-! ### evaluation (depth fuel) -/
 
@@ -350,7 +445,7 @@ def eval (d : Doc) : Nat → Expr → Ctx → Option Val
           match x, y with
           | .ns l1, .ns l2 => some (.ns (docOrderUnion l1 l2))
           | _, _ => none
-        else if op = "+" ∨ op = "-" ∨ op = "*" ∨ op = "mod" then
+        else if op = "+" ∨ op = "-" ∨ op = "*" ∨ op = "mod" ∨ op = "div" then
           some (.num (arith op (toNum d x) (toNum d y)))
         else some (.bool (compareVals d op x y))
     | .fn name args => do
@@ -459,14 +554,14 @@ def evalFn (d : Doc) (name : String) (vs : List Val) (c : Ctx) : Option Val :=
   | "translate", [a, b, e] => some (.str (translateStr (toStr d a) (toStr d b) (toStr d e)))
   | "substring", [a, b] => some (.str (substringNum (toStr d a) (toNum d b) none))
   | "substring", [a, b, e] => some (.str (substringNum (toStr d a) (toNum d b) (some (toNum d e))))
-  | "floor", [v] => some (.num (toNum d v))
-  | "ceiling", [v] => some (.num (toNum d v))
-  | "round", [v] => some (.num (toNum d v))
+  | "floor", [v] => some (.num (toNum d v).floor)
+  | "ceiling", [v] => some (.num (toNum d v).ceiling)
+  | "round", [v] => some (.num (toNum d v).round)
   | "current", [] => some (.ns [c.cur])
   | "name", [] => some (.str (nodeName d c.node))
   | "name", [.ns l] => some (.str (match l with | [] => "" | i :: _ => nodeName d i))
-  | "local-name", [] => some (.str (nodeName d c.node))
-  | "local-name", [.ns l] => some (.str (match l with | [] => "" | i :: _ => nodeName d i))
+  | "local-name", [] => some (.str (localOf (nodeName d c.node)))
+  | "local-name", [.ns l] => some (.str (match l with | [] => "" | i :: _ => localOf (nodeName d i)))
   | _, _ => none
 
 def nodeName (d : Doc) (i : Nat) : String :=
@@ -627,7 +722,7 @@ def countsFor (d : Doc) (fuel : Nat) (count : List Expr) (cur n : Nat) : Bool :=
   if count.isEmpty then
     decide ((d.node n).kind = (d.node cur).kind) &&
       (match (d.node cur).kind with
-       | .elem | .attr | .pi => decide ((d.node n).name = (d.node cur).name)
+       | .elem | .attr | .pi => decide (localOf (d.node n).name = localOf (d.node cur).name ∧ (d.node n).uri = (d.node cur).uri)
        | _ => true)
   else count.any fun p => matchesPat d fuel p n
 
@@ -673,7 +768,9 @@ def cmpKeyAsc : KeyVal → KeyVal → Ordering
   | .n .nan, .n .nan => .eq
   | .n .nan, .n _ => .lt
   | .n _, .n .nan => .gt
-  | .n (.int a), .n (.int b) => if a < b then .lt else if a = b then .eq else .gt
+  | .n (.dy a0 ka), .n (.dy b0 kb) =>
+    let (a, b, _) := Num.align a0 ka b0 kb
+    if a < b then .lt else if a = b then .eq else .gt
   | _, _ => .eq
 
 def lexLe : List SortKey → List KeyVal → List KeyVal → Bool
@@ -718,9 +815,11 @@ def deepCopy (d : Doc) : Nat → Nat → List REv
     let n := d.node i
     match n.kind with
     | .root => (d.children i).flatMap (deepCopy d f)
-    | .elem => [.start n.name] ++ (d.attrs i).map (fun a => .attr (d.node a).name (d.node a).value)
-        ++ (d.children i).flatMap (deepCopy d f) ++ [.stop n.name]
-    | .attr => [.attr n.name n.value]
+    | .elem =>
+      [.start (expanded n.uri (localOf n.name))]
+        ++ (d.attrs i).map (fun a => .attr (expanded (d.node a).uri (localOf (d.node a).name)) (d.node a).value)
+        ++ (d.children i).flatMap (deepCopy d f) ++ [.stop (expanded n.uri (localOf n.name))]
+    | .attr => [.attr (expanded n.uri (localOf n.name)) n.value]
     | .text => [.text n.value]
     | .comment => [.comment n.value]
     | .pi => [.pi n.name n.value]
@@ -864,15 +963,15 @@ def execOne (q : Quirks) (ss : Stylesheet) (d : Doc) (genv : List (String × Val
         | .useSets ns :: rest => (ns, rest)
         | _ => ([], body)
       let fromSets ← useAttrSets q ss d genv f sets c
-      let as ← attrs.mapM fun (an, parts) => (evalAvt d f parts c).map fun v => REv.attr an v
+      let as ← attrs.mapM fun (an, parts) => (evalAvt d f parts c).map fun v => REv.attr (sheetName an) v
       let b ← execSeq q ss d genv f body' c0
-      some ([.start name] ++ fromSets ++ as ++ b ++ [.stop name])
+      some ([.start (sheetName name)] ++ fromSets ++ as ++ b ++ [.stop (sheetName name)])
     | .number value level count format from_ =>
       match value with
       | some e => do
         let v ← eval d f e c
-        match toNum d v with
-        | .int i => if i ≥ 1 then some [.text (formatNumber format i.toNat)] else none
+        match (toNum d v).round with
+        | .dy i _ => if i ≥ 1 then some [.text (formatNumber format i.toNat)] else none
         | .nan => none
       | none =>
         let s := formatNumbers format (numberList d f level count from_ c.node)
@@ -894,11 +993,12 @@ def execOne (q : Quirks) (ss : Stylesheet) (d : Doc) (genv : List (String × Val
     | .element nameAvt body => do
       let name ← evalAvt d f nameAvt c
       let b ← execSeq q ss d genv f body c0
-      some ([.start name] ++ b ++ [.stop name])
+      some ([.start (sheetName name)] ++ b ++ [.stop (sheetName name)])
     | .attribute nameAvt nsEmpty body => do
       let name ← evalAvt d f nameAvt c
       let b ← execSeq q ss d genv f body c0
-      some [.attr name (rtfString b)]
+      -- §7.1.3: an explicit namespace attribute decides the namespace (namespace="" = none), else the prefix does
+      some [.attr (if nsEmpty then localOf name else sheetName name) (rtfString b)]
     | .comment body => do
       let b ← execSeq q ss d genv f body c0
       some [.comment (fixComment (rtfString b))]
@@ -914,8 +1014,8 @@ def execOne (q : Quirks) (ss : Stylesheet) (d : Doc) (genv : List (String × Val
         execSeq q ss d genv f (match body with | .useSets _ :: rest => rest | _ => body) c0
       | .elem => do
         let b ← execSeq q ss d genv f body c0
-        some ([.start n.name] ++ b ++ [.stop n.name])
-      | .attr => some [.attr n.name n.value]
+        some ([.start (expanded n.uri (localOf n.name))] ++ b ++ [.stop (expanded n.uri (localOf n.name))])
+      | .attr => some [.attr (expanded n.uri (localOf n.name)) n.value]
       | .text => some [.text n.value]
       | .comment => some [.comment n.value]
       | .pi => some [.pi n.name n.value]
